@@ -252,23 +252,34 @@ def rule_strand(ctx, R):
 
 def rule_unreg(ctx, R):
     """the waiter handed a wake-up loses ALL its registrations under the same registry lock"""
-    b = ctx.prog.need(BM + "notify_key_ready")
-    pops = [i for i, t in b.calls() if callee(t) == BR + "pop_first_waiter"]
-    unr = [i for i, t in b.calls() if callee(t) == BR + "unregister_client"]
-    R.floor("waiter_pops", len(pops))
-    for i in pops:
-        ok = any(u in cfg.fwd(b, [i]) for u in unr)
-        if ok:
-            # conn id handed to unregister derives from the popped client
-            ok = False
-            for u in unr:
-                P = prov.operand_origins(b, b.term(u)["a"][1])
-                if P.has_call(r"BlockingRegistry::pop_first_waiter$"):
-                    ok = True
-        R.inst(b.fn, "waiter-pop", {"at": b.loc(i), "all_registrations_removed": ok})
-        if not ok:
-            R.finding(b.fn, "waiter-pop:other-registrations-left",
-                      "the client popped for a wake-up keeps its registrations under its other keys (multi-key BLPOP): they swallow elements pushed to those keys later", b.loc(i))
+    b0 = ctx.prog.need(BM + "notify_key_ready")
+    # the function and the closures it drives (`registries.get(db).and_then(|r| { pop; unregister })`)
+    bodies = [b0]; seen_c = set(); k_ = 0
+    while k_ < len(bodies):
+        for _, t in bodies[k_].calls():
+            for c in t.get("clos") or []:
+                if c not in seen_c and c in ctx.prog.bodies:
+                    seen_c.add(c); bodies.append(ctx.prog.bodies[c])
+        k_ += 1
+    npops = 0
+    for b in bodies:
+        pops = [i for i, t in b.calls() if callee(t) == BR + "pop_first_waiter"]
+        unr = [i for i, t in b.calls() if callee(t) == BR + "unregister_client"]
+        npops += len(pops)
+        for i in pops:
+            ok = any(u in cfg.fwd(b, [i]) for u in unr)
+            if ok:
+                # conn id handed to unregister derives from the popped client
+                ok = False
+                for u in unr:
+                    P = prov.operand_origins(b, b.term(u)["a"][1])
+                    if P.has_call(r"BlockingRegistry::pop_first_waiter$"):
+                        ok = True
+            R.inst(b0.fn, "waiter-pop", {"at": b.loc(i), "all_registrations_removed": ok})
+            if not ok:
+                R.finding(b0.fn, "waiter-pop:other-registrations-left",
+                          "the client popped for a wake-up keeps its registrations under its other keys (multi-key BLPOP): they swallow elements pushed to those keys later", b.loc(i))
+    R.floor("waiter_pops", npops)
     # timeouts: get_expired_clients removes the client from every key queue it scans and empties
     g = ctx.prog.need(BR + "get_expired_clients")
     rm = [i for i, t in g.calls() if re.search(r"VecDeque::<network::blocking::BlockedClient>::(remove|retain|drain|swap_remove_back|swap_remove_front|retain_mut)", t["f"] or "")]
@@ -474,15 +485,28 @@ def rule_fifo(ctx, R):
                 # insertion at the place the arrival time gives: the index comes from a search
                 # (position / partition_point / binary_search_by) whose closure compares blocked_at
                 P = prov.operand_origins(b, t["a"][1], deep=True)
-                for r_ in P.roots:
-                    if r_[0] == "call" and re.search(r"::(position|partition_point|binary_search_by|binary_search_by_key|rposition)(::<.*>)?$", r_[1]):
-                        for cl in b.term(r_[2]).get("clos") or ():
-                            cb = ctx.prog.bodies.get(cl)
-                            if cb is not None and any(isinstance(e, dict) and e.get("f") == "network::blocking::BlockedClient.blocked_at"
-                                                      for bb_ in cb.bbs for st_ in bb_["s"] if st_["k"] == "="
-                                                      for pl in ([st_["r"].get("p")] if st_["r"]["k"] in ("ref",) else [op_place(st_["r"]["o"])] if st_["r"]["k"] == "use" and not op_is_const(st_["r"]["o"]) else [])
-                                                      if pl for e in pl["p"]):
-                                ok = True
+                # ... whatever adaptor computes the index (position / partition_point /
+                # take_while(..).count() / binary_search_by ...): one of the calls it derives
+                # from runs a closure that reads blocked_at
+                for bbi_ in {r_[2] for r_ in P.roots if r_[0] == "call"} | {bb_ for _, bb_ in P.via}:
+                    tt_ = b.term(bbi_)
+                    if tt_["k"] != "call":
+                        continue
+                    for cl in tt_.get("clos") or ():
+                        cb = ctx.prog.bodies.get(cl)
+                        if cb is None:
+                            continue
+                        for bb_ in cb.bbs:
+                            for st_ in bb_["s"]:
+                                if st_["k"] != "=":
+                                    continue
+                                pls = []
+                                if st_["r"]["k"] in ("ref", "discr"):
+                                    pls.append(st_["r"]["p"])
+                                elif st_["r"]["k"] in ("use", "cast") and not op_is_const(st_["r"]["o"]):
+                                    pls.append(op_place(st_["r"]["o"]))
+                                if any(isinstance(e, dict) and e.get("f") == "network::blocking::BlockedClient.blocked_at" for pl in pls for e in pl["p"]):
+                                    ok = True
             R.inst(fn, "waiter-queue-op:" + m.group(1), {"function": fn, "op": m.group(1), "order_preserving": ok} if not ok or n % 3 == 0 else None)
             if not ok:
                 R.finding(fn, "waiter-queue:%s" % m.group(1),
